@@ -238,6 +238,49 @@ CLAIMS = {
         technique="copy/move resolution analysis over instantiations with non-trivial value types, type-level "
                   "(compile-fail) witness",
     ),
+    "C17": dict(
+        category="other",
+        text="Rejection is decided as a control-flow fact on every structured path: the three constructions that parse "
+             "a pattern throw when the parse yields no value and read the value only after has_value() (REJ-1), and "
+             "the automaton sizes are in-class constant initialisers so that a throwing parse is a compile error; "
+             "find_str throws after a full scan, is the only producer of symbol indices (right sides by unique id, "
+             "left sides by name) and regex ids embed the pattern (REJ-2); nterm rejects an empty name (REJ-3); all "
+             "uses of the pattern parser run it with its own lexer and without white-space skipping (REJ-4); "
+             "regex_lexer accepts a raw byte only after a printable test or a comparison with a literal syntax "
+             "character, on every path (REJ-5).",
+        design_ref="DESIGN.md 5/C17",
+        note=TB + " Not decided: the exact set of strings the fixed pattern grammar + regex_lexer accept beyond these "
+                  "clauses; that scanning a malformed pattern never reads past its end.",
+        technique="must-throw / must-test path analysis on structured control flow, canonical-form matching of "
+                  "symbol producers",
+    ),
+    "C18": dict(
+        category="other",
+        text="The custom-lexer path differs from the generated one in a single call expression: both arms of the one "
+             "`if constexpr` are compared on canonical forms (same five arguments), and the finite-domain summary of "
+             "get_current_term is computed separately for an instantiation of each kind and required to be identical "
+             "(LEXARM). The uses of the result are decided by the shared rules: default result = the failure constant "
+             "tested (SENT-C), consumes exactly the returned length and hands exactly that slice to the functor "
+             "(SLICE, POS-P), length never narrowed (LENW) and read only when valid (TAG), index used as a term index "
+             "(IDX), custom terms contribute no automaton states (CAP-T).",
+        design_ref="DESIGN.md 5/C18",
+        note=TB + " Not decided: behaviour for indices / lengths out of range (excluded by the property).",
+        technique="sibling-arm agreement on canonical forms + finite-domain abstract interpretation per instantiation",
+    ),
+    "C19": dict(
+        category="proof",
+        text="All arities 1..9, all positions and all ordered position pairs are enumerated in a generated translation "
+             "unit of 636 static_asserts over decltype with distinct non-copyable tag types and containers that accept "
+             "only the documented element's tag; it is compiled, never run (clang++; g++ too in the thorough tier). "
+             "Which argument is picked, that its value category is preserved, that the container comes back without "
+             "a copy are facts of overload resolution and types, so compilation is the proof; negative witnesses must "
+             "fail. That no other argument is read, and that construct list-initialises, follows from the patterns' "
+             "ASTs (skipped parameters are unnamed) (HLP-A).",
+        design_ref="DESIGN.md 5/C19",
+        note="Trusted base: the C++ type checker of clang 14 (and g++ 12), the witness generator "
+             "ctpgsa/gen/helpers_witness.py, the extractor for HLP-A.",
+        technique="type-level encoding with compile-fail witnesses + AST rules on the template patterns",
+    ),
 }
 
 NOT_APPLICABLE = {
